@@ -86,7 +86,7 @@ _SLOT = st.integers(0, 2)
 def s_inplace():
     return st.one_of(
         st.tuples(st.just("s"), st.sampled_from(["add", "discard", "clear"]), st.integers(0, 4)),
-        st.tuples(st.just("l"), st.sampled_from(["append", "prepend", "pop", "insert_mid", "clear", "extend"]), st.integers(0, 4)),
+        st.tuples(st.just("l"), st.sampled_from(["append", "prepend", "prepend2", "pop", "insert_mid", "clear", "extend"]), st.integers(0, 4)),
         st.tuples(st.sampled_from(["m", "sm"]), st.sampled_from(["put", "del", "clear"]), st.integers(0, 3)))
 
 
@@ -538,7 +538,8 @@ def interpret(case, ctx):
                     def both(f):
                         f(cont)
                         f(cur)
-                    both({"append": lambda c_: c_.append(x), "prepend": lambda c_: c_.insert(0, x), "pop": lambda c_: c_ and c_.pop(),
+                    both({"append": lambda c_: c_.append(x), "prepend": lambda c_: c_.insert(0, x),
+                          "prepend2": lambda c_: c_.__setitem__(slice(0, 0), [x, (x + 1) % 5]), "pop": lambda c_: c_ and c_.pop(),
                           "insert_mid": lambda c_: c_.insert(len(c_) // 2, x), "clear": lambda c_: c_.clear(),
                           "extend": lambda c_: c_.extend([x, x + 1])}[what])
                 else:
